@@ -25,6 +25,7 @@ pub struct World<K: KeyT, V: ValT> {
     pub silent: bool,
     /// rayon in use: the live-table counter is not reliable (worker threads allocate/free asynchronously)
     pub nolive: bool,
+    pub probe_ctr: usize,
 }
 
 #[derive(Default, Clone, Copy)]
@@ -189,6 +190,7 @@ impl<K: KeyT, V: ValT> World<K, V> {
             gw: if cfg!(miri) { 8 } else { 16 },
             silent: false,
             nolive: false,
+            probe_ctr: 0,
         }
     }
 
